@@ -65,7 +65,8 @@ func runC12(c *report.Ctx) {
 			c.Fail(sk(na)+"=>each:putEncryptedPubKey", "derived public keys are no longer stored: after a restart the issued address is unknown to the wallet", p.Pos(na.Pos()))
 		}
 		for _, s := range ss {
-			if loopHeaderOf(s.Block()) != nil && strings.Contains(p.Desc(an.CallOf(s).Args[2]), "unlockDeriveInfo.index") {
+			// the index of the address being stored: the scan's own record of it, or the derivation path the address carries
+			if d := p.Desc(an.CallOf(s).Args[2]); loopHeaderOf(s.Block()) != nil && (strings.Contains(d, "unlockDeriveInfo.index") || strings.Contains(strings.ToLower(d), "derivationpath.index")) {
 				c.OK(sk(na)+"=>each:putEncryptedPubKey", "stored per derived address under its own index", posOf(c, s))
 			} else {
 				c.Fail(sk(na)+"=>each:putEncryptedPubKey", "the public key is not stored per derived address under its derivation index", posOf(c, s))
